@@ -388,7 +388,9 @@ fn tail(ex: &mut IExec, ctx: &mut Ctx) {
             if ex.toks[t].kind == TokKind::Probe && hd == BLOCKED_USER {
                 continue; // this token refuses that receiver by design of the stub
             }
-            if ex.bal(t, hd) >= 1 && ex.bal(0, hd) >= 1 && t != 0 {
+            // (balances close to the top of i128 would make the honest credit itself unrepresentable)
+            let roomy = |x: i128| x < i128::MAX / 2;
+            if ex.bal(t, hd) >= 1 && ex.bal(0, hd) >= 1 && t != 0 && roomy(ex.bal(t, hd)) && roomy(ex.bal(0, H_GAS)) && roomy(ex.bal(t, H_ITS)) {
                 ctx.count("tail.outbound");
                 let before = ex.bal(t, hd);
                 ex.do_send(ctx, u, &TokRef::Registered(n as u8), 0, 1, &IAmt::Lit(1), None, 0, 1, AuthVar::Right, None);
